@@ -277,8 +277,17 @@ func (x *Exec) evalSelector(e *ast.SelectorExpr, st *State) *Value {
 		panic(engErr("no selection info for %s at %s", e.Sel.Name, x.pos(e)))
 	}
 	if sel.Kind() != types.FieldVal {
-		// method value
-		panic(engErr("method value %s not supported at %s", e.Sel.Name, x.pos(e)))
+		// method value: an opaque function value determined by receiver and method
+		recv := x.eval(e.X, st)
+		var rt *Term
+		if recv.Tm != nil && recv.Tm.S == IntS {
+			rt = recv.Tm
+		} else if recv.P != nil && recv.P.simple() {
+			rt = recv.P.Base
+		} else {
+			rt = IntLit(0)
+		}
+		return &Value{T: x.typeOf(e), Tm: App("methodval", IntS, rt, x.eng.typeID(types.NewPointer(sel.Obj().Type())))}
 	}
 	if p := x.addrOf(e, st); p != nil {
 		return x.load(st, p, x.typeOf(e))
